@@ -11,11 +11,23 @@
       are bijections with clean names, mask tables well-formed); `genTables_wf` discharges them for the
       registry regenerated from the Go tree, through the C17 theorems;
     * `R : Rfc3339` with `R.Lawful` — `time.Parse(RFC3339, time.Format(RFC3339, s)) = s` for whole
-      seconds whose local year is within 0..9999 (`R.inYears`, the test the readers apply; it contains
-      the years 1..9999 of the property) (trusted standard library); `toyR_lawful` shows the hypothesis
-      is satisfiable;
-    * `H : Hints` — what a typed caller tells the reader about enumerations and masks; the generic
-      decoder `ttlv.Value` is `noHints`.
+      seconds whose year IN THE LOCATION THE WRITER FORMATS IN is within 0..9999 (`R.inYears`, the test
+      the readers apply), and the years 1..9999 of the property pass that test (trusted standard
+      library); `toyR_lawful` shows the hypothesis is satisfiable.  It is true of Go for the UTC location
+      only: `zone_east_not_lawful` / `zone_east_date_lost` and `zone_lmt_not_lawful` show what goes wrong
+      for a writer that formats in a zone east of Greenwich or in a zone whose offset has seconds — which
+      is what /repo's writers do when `time.Local` is such a zone (open finding C04 `date-zone`, caught
+      on the real code by the `zone` oracle of the lex engine);
+    * `H : Hints` — what the caller of the reader tells it about enumerations and masks, POSITION BY
+      POSITION (a function of the path of child indices and of the tag); the generic decoder
+      `ttlv.Value` is `noHints`, a caller that looks at the tag only is `Hints.ofTag f`.  `xml_roundtrip`
+      asks that the annotations of the tree are the hints (`Representable`); `xml_roundtrip_any` removes
+      the condition: EVERY in-scope annotated tree (`InScope`: KMIP tags, Go value ranges, dates in
+      years 1..9999 — nothing about annotations) is read back by the reader that is told, at each
+      position, what the writer was told there (`t.hints`).  This includes messages whose
+      `AttributeValue` elements carry different enumeration / mask types (`sampleMixed`), which no
+      tag-keyed hint can describe (`sampleMixed_no_tag_hints`).  That the TYPED decoder makes at each
+      position the choice the typed encoder made is the typed layer, checked on the real code.
   Trusted and outside the model: the tokenisers and escapers of encoding/xml and encoding/json (a text
   string is its byte sequence; which byte sequences survive escaping + tokenising is their business),
   and RFC 3339 itself.  The typed traversal (which Go field receives which element) is the plan layer
@@ -311,12 +323,135 @@ theorem json_generic_value {R : Rfc3339} (hR : R.Lawful) (t : XItem) (h : t.Repr
 theorem xml_roundtrip_in_context {T : Tables} (hT : T.WF) {R : Rfc3339} (hR : R.Lawful) {H : Hints}
     (t : XItem) (h : t.Representable R H) (fuel : Nat) (hf : t.size ≤ fuel) (rest : List Tok) :
     xDecodeValue T R H fuel (after ((xmlWrite T R t).toks ++ rest)) t.tag = .ok (t, after rest) :=
-  xDecodeValue_write hT hR t false fuel rest hf h
+  xDecodeValue_write hT hR t H false fuel rest hf h
 
 theorem json_roundtrip_in_context {T : Tables} (hT : T.WF) {R : Rfc3339} (hR : R.Lawful) {H : Hints}
     (t : XItem) (h : t.Representable R H) (fuel : Nat) (hf : t.size ≤ fuel) (more : List JVal) :
     jDecodeValue T R H fuel ⟨jsonWrite T R t :: more⟩ t.tag = .ok (t, ⟨more⟩) :=
-  jDecodeValue_write hT hR t false fuel more hf h
+  jDecodeValue_write hT hR t H false fuel more hf h
+
+/-! ### every annotated tree — no condition tying the annotations to the reader -/
+
+mutual
+  /-- the hypotheses of C04 on an annotated tree, and nothing else: every tag a KMIP tag, every value in
+      the range of its Go type, every date within years 1..9999 (UTC seconds `minEpoch … maxEpoch`).
+      No condition on which enumeration / mask type a node is written with. -/
+  def inScope : XItem → Bool
+    | .struct t cs => tagOk t && inScopeList cs
+    | .int t v => tagOk t && int32Ok v
+    | .mask t _ v => tagOk t && int32Ok v
+    | .long t v => tagOk t && int64Ok v
+    | .big t _ => tagOk t
+    | .enum t _ v => tagOk t && decide (v < 4294967296)
+    | .bool t _ => tagOk t
+    | .text t _ => tagOk t
+    | .bytes t _ => tagOk t
+    | .date t v => tagOk t && decide (minEpoch ≤ v) && decide (v ≤ maxEpoch)
+    | .interval t v => tagOk t && decide (v < 4294967296)
+  def inScopeList : List XItem → Bool
+    | [] => true
+    | x :: xs => inScope x && inScopeList xs
+end
+
+def InScope (t : XItem) : Prop := inScope t = true
+
+mutual
+  theorem inScope_values : ∀ t : XItem, inScope t = true → t.valuesOk = true
+    | .struct t cs, h => by
+      simp only [inScope, Bool.and_eq_true] at h
+      simp only [XItem.valuesOk]; exact inScopeList_values cs h.2
+    | .int .., h | .mask .., h | .long .., h | .enum .., h | .interval .., h => by
+      simp only [inScope, Bool.and_eq_true] at h
+      simp only [XItem.valuesOk]; exact h.2
+    | .big .., _ | .bool .., _ | .text .., _ | .bytes .., _ | .date .., _ => by simp [XItem.valuesOk]
+  theorem inScopeList_values : ∀ cs : List XItem, inScopeList cs = true → XItem.valuesOkList cs = true
+    | [], _ => rfl
+    | c :: cs, h => by
+      simp only [inScopeList, Bool.and_eq_true] at h
+      simp only [XItem.valuesOkList, Bool.and_eq_true]
+      exact ⟨inScope_values c h.1, inScopeList_values cs h.2⟩
+end
+
+mutual
+  theorem inScope_domain {R : Rfc3339} (hR : R.Lawful) : ∀ t : XItem, inScope t = true →
+      t.inDomainG false R = true
+    | .struct t cs, h => by
+      simp only [inScope, Bool.and_eq_true] at h
+      simp only [XItem.inDomainG, Bool.and_eq_true, rootTagOk, Bool.false_eq_true, if_false]
+      exact ⟨h.1, inScopeList_domain hR cs h.2⟩
+    | .int .., h | .mask .., h | .long .., h | .enum .., h | .interval .., h => by
+      simp only [inScope, Bool.and_eq_true] at h
+      simp only [XItem.inDomainG, XItem.tag, rootTagOk, Bool.false_eq_true, if_false]; exact h.1
+    | .big .., h | .bool .., h | .text .., h | .bytes .., h => by
+      simp only [inScope] at h
+      simp only [XItem.inDomainG, XItem.tag, rootTagOk, Bool.false_eq_true, if_false]; exact h
+    | .date t v, h => by
+      simp only [inScope, Bool.and_eq_true, decide_eq_true_eq] at h
+      simp only [XItem.inDomainG, Bool.and_eq_true, rootTagOk, Bool.false_eq_true, if_false]
+      exact ⟨h.1.1, hR.years v h.1.2 h.2⟩
+  theorem inScopeList_domain {R : Rfc3339} (hR : R.Lawful) : ∀ cs : List XItem, inScopeList cs = true →
+      XItem.inDomainList R cs = true
+    | [], _ => rfl
+    | c :: cs, h => by
+      simp only [inScopeList, Bool.and_eq_true] at h
+      simp only [XItem.inDomainList, Bool.and_eq_true]
+      exact ⟨inScope_domain hR c h.1, inScopeList_domain hR cs h.2⟩
+end
+
+/-- an in-scope tree is representable for the reader told, position by position, what the writer was told. -/
+theorem inScope_representable {R : Rfc3339} (hR : R.Lawful) (t : XItem) (h : InScope t) :
+    t.Representable R t.hints :=
+  rep_hints R false t (inScope_values t h) (inScope_domain hR t h)
+
+/-- XML, EVERY in-scope annotated tree: whatever enumeration / mask type each node is written with — two
+    `AttributeValue`s of different types included — the reader that makes at each position the choice the
+    writer made there decodes the writer's document to the very same tree. -/
+theorem xml_roundtrip_any {T : Tables} (hT : T.WF) {R : Rfc3339} (hR : R.Lawful) (t : XItem) (h : InScope t) :
+    xmlRead T R t.hints (xmlWrite T R t) = .ok t :=
+  xmlRead_write hT hR t (inScope_representable hR t h)
+
+/-- JSON: likewise. -/
+theorem json_roundtrip_any {T : Tables} (hT : T.WF) {R : Rfc3339} (hR : R.Lawful) (t : XItem) (h : InScope t) :
+    jsonRead T R t.hints (jsonWrite T R t) = .ok t :=
+  jsonRead_write hT hR t (inScope_representable hR t h)
+
+/-- … hence the three encodings of every in-scope annotated tree carry the same information. -/
+theorem three_encodings_agree_any {T : Tables} (hT : T.WF) {R : Rfc3339} (hR : R.Lawful) (t : XItem)
+    (h : InScope t) :
+    (fun t' => enc t'.erase) <$> xmlRead T R t.hints (xmlWrite T R t) = .ok (enc t.erase) ∧
+    (fun t' => enc t'.erase) <$> jsonRead T R t.hints (jsonWrite T R t) = .ok (enc t.erase) := by
+  rw [xml_roundtrip_any hT hR t h, json_roundtrip_any hT hR t h]; exact ⟨rfl, rfl⟩
+
+/-- the hint condition of `xml_roundtrip` adds nothing to `InScope` but the agreement of annotations and
+    hints: a tree representable for some hints has in-range values. -/
+theorem representable_values {R : Rfc3339} {H : Hints} (t : XItem) (h : t.Representable R H) :
+    t.valuesOk = true := by
+  have hn : t.normal H = true := by
+    have key : ∀ (t : XItem) (H : Hints) (top : Bool), t.representableG top R H = true → t.normal H = true := by
+      intro t
+      induction t using XItem.rec (motive_2 := fun cs => ∀ Hs : Nat → Hints,
+          XItem.representableList R Hs cs = true → XItem.normalList Hs cs = true) with
+      | struct t cs ih =>
+        intro H top h; simp only [XItem.representableG, Bool.and_eq_true] at h
+        simp only [XItem.normal]; exact ih _ h.2
+      | int t v => intro H top h; simp only [XItem.representableG, Bool.and_eq_true] at h; simp [XItem.normal, h.1.2, h.2]
+      | mask t m v => intro H top h; simp only [XItem.representableG, Bool.and_eq_true] at h; simp [XItem.normal, h.1.2, h.2]
+      | long t v => intro H top h; simp only [XItem.representableG, Bool.and_eq_true] at h; simp [XItem.normal, h.2]
+      | big => intro H top _; simp [XItem.normal]
+      | enum t e v => intro H top h; simp only [XItem.representableG, Bool.and_eq_true] at h; simp [XItem.normal, h.1.2, h.2]
+      | bool => intro H top _; simp [XItem.normal]
+      | text => intro H top _; simp [XItem.normal]
+      | bytes => intro H top _; simp [XItem.normal]
+      | date => intro H top _; simp [XItem.normal]
+      | interval t v => intro H top h; simp only [XItem.representableG, Bool.and_eq_true] at h; simp [XItem.normal, h.2]
+      | nil => rfl
+      | cons c cs ih1 ih2 =>
+        rename_i Hs h
+        simp only [XItem.representableList, Bool.and_eq_true] at h
+        simp only [XItem.normalList, Bool.and_eq_true]
+        exact ⟨ih1 _ _ h.1, ih2 _ h.2⟩
+    exact key t H false h
+  exact valuesOk_of_normal t H hn
 
 /-! ## 6. non-vacuity -/
 
@@ -343,7 +478,7 @@ def sample : XItem :=
     .date 0x540009 253402300799, .interval 0x54000A 4294967295, .struct 0x54000B []]
 
 /-- a typed caller's view: the usage mask and an enumeration carried under another tag. -/
-def sampleHints : Hints := fun t =>
+def sampleHints : Hints := Hints.ofTag fun t =>
   if t = 0x42002C then { mask := some 0 } else if t = 0x42000B then { enumTag := 0x420028 } else {}
 
 def sampleTyped : XItem :=
@@ -360,6 +495,37 @@ example : binIs (xmlRead genTables toyR sampleHints (xmlWrite genTables toyR sam
     (enc sampleTyped.erase) = true := by decide +kernel
 example : binIs (jsonRead genTables toyR sampleHints (jsonWrite genTables toyR sampleTyped))
     (enc sampleTyped.erase) = true := by decide +kernel
+
+/-- the shape of every Create / Register / Locate request with two typed attributes: a template whose
+    `AttributeValue` (0x42000B) elements carry a Cryptographic Algorithm (enumeration 0x420028), a
+    Cryptographic Usage Mask (mask 0x42002C), an Object Type (enumeration 0x420057) and a plain Integer —
+    ONE tag, four ways of writing it. -/
+def sampleMixed : XItem :=
+  .struct 0x420091 [
+    .struct 0x420008 [.text 0x42000A [65], .enum 0x42000B 0x420028 3],
+    .struct 0x420008 [.text 0x42000A [66], .mask 0x42000B 0x42002C 12],
+    .struct 0x420008 [.text 0x42000A [67], .enum 0x42000B 0x420057 2],
+    .struct 0x420008 [.text 0x42000A [68], .int 0x42000B 128]]
+
+example : InScope sampleMixed := by unfold InScope; decide +kernel
+
+/-- no hint that looks at the tag only describes it: the old, tag-keyed `Representable` held of this
+    message for NO reader, so `xml_roundtrip` said nothing about it … -/
+theorem sampleMixed_no_tag_hints (R : Rfc3339) (f : Int → Hint) :
+    ¬ sampleMixed.Representable R (Hints.ofTag f) := by
+  intro h
+  simp only [XItem.Representable, XItem.representable, sampleMixed, XItem.representableG,
+    XItem.representableList, Bool.and_eq_true, decide_eq_true_eq, Hints.ofTag, Hints.child, hintsTail] at h
+  have h2 : (f 4325387).mask = some 4325420 := of_decide_eq_true h.2.2.1.2.2.1.2
+  have h4 : (f 4325387).mask = none := of_decide_eq_true h.2.2.2.2.1.2.2.1.2
+  rw [h2] at h4
+  cases h4
+
+/-- … while `xml_roundtrip_any` / `json_roundtrip_any` cover it (here also by evaluation). -/
+example : binIs (xmlRead genTables toyR sampleMixed.hints (xmlWrite genTables toyR sampleMixed))
+    (enc sampleMixed.erase) = true := by decide +kernel
+example : binIs (jsonRead genTables toyR sampleMixed.hints (jsonWrite genTables toyR sampleMixed))
+    (enc sampleMixed.erase) = true := by decide +kernel
 
 /-- the generic decoder cannot read a mask text (it is not told the element is a mask): the hint
     condition of `Representable` is necessary. -/
@@ -554,6 +720,64 @@ def isOk (r : Res XItem) : Bool :=
 example : isOk (xmlRead genTables toyR noHints altXml) = true ∧ stableXml genTables toyR altXml = true ∧
     isOk (xmlRead genTables toyR noHints fooXml) = true ∧ stableXml genTables toyR fooXml = true ∧
     isOk (xmlRead genTables toyR noHints negTagXml) = true ∧ stableXml genTables toyR negTagXml = true := by
+  decide +kernel
+
+/-! ### the RFC 3339 hypothesis and the writer's time zone (open finding C04 `date-zone`)
+
+`Rfc3339.Lawful` is a statement about the pair (`Format` in the location the writer formats in, `Parse`).
+Go's `time` satisfies it for UTC.  /repo's writers format in the location of the value, which for a value
+decoded from binary TTLV is `time.Local`; two stand-ins show what that does on a machine whose zone is not
+UTC — both effects are observed on the real code by the lex engine's `zone` oracle:
+  * east of Greenwich the last hours of year 9999 are local year 10000: a five-digit year, which `Parse`
+    rejects — the library cannot read its own document (`zone_east_date_lost`);
+  * a zone whose offset has seconds (every zone before standard time: Tokyo +09:18:59 until 1887, Paris
+    +00:09:21 until 1911, Los Angeles −07:52:58 until 1883): the RFC 3339 offset has minutes only, the
+    text denotes ANOTHER instant — the document decodes, to a different date (`zone_lmt_value_changed`). -/
+
+/-- `10000-01-01T00:59:59+01:00` -/
+def zoneEastText : Str :=
+  [49, 48, 48, 48, 48, 45, 48, 49, 45, 48, 49, 84, 48, 48, 58, 53, 57, 58, 53, 57, 43, 48, 49, 58, 48, 48]
+
+/-- a writer one hour east of UTC, on the last second of year 9999. -/
+def zoneEastR : Rfc3339 :=
+  { format := fun s => if s = maxEpoch then zoneEastText else toyR.format s
+    parse := toyR.parse
+    inYears := toyR.inYears }
+
+theorem zone_east_not_lawful : ¬ zoneEastR.Lawful := by
+  intro h
+  have h1 := h.roundtrip maxEpoch (by decide)
+  revert h1
+  decide
+
+/-- the date is in the scope of C04 (year 9999), the document is written, and the reader rejects it. -/
+theorem zone_east_date_lost :
+    inScope (.date 0x420008 maxEpoch) = true ∧
+      isErr (xmlRead genTables zoneEastR noHints (xmlWrite genTables zoneEastR (.date 0x420008 maxEpoch))) = true ∧
+      isErr (jsonRead genTables zoneEastR noHints (jsonWrite genTables zoneEastR (.date 0x420008 maxEpoch))) = true := by
+  decide +kernel
+
+/-- a writer in a zone whose offset is `hh:mm:59`: the offset is written `hh:mm`, so the text denotes the
+    instant 59 seconds later. -/
+def zoneLmtR : Rfc3339 :=
+  { format := fun s => toyR.format (s + 59)
+    parse := toyR.parse
+    inYears := toyR.inYears }
+
+theorem zone_lmt_not_lawful : ¬ zoneLmtR.Lawful := by
+  intro h
+  have h1 := h.roundtrip 0 (by decide)
+  revert h1
+  decide
+
+/-- the document is accepted — and carries another date: the binary encodings differ. -/
+theorem zone_lmt_value_changed :
+    inScope (.date 0x420008 0) = true ∧
+      binIs (xmlRead genTables zoneLmtR noHints (xmlWrite genTables zoneLmtR (.date 0x420008 0)))
+        (enc (Item.date 0x420008 59)) = true ∧
+      binIs (jsonRead genTables zoneLmtR noHints (jsonWrite genTables zoneLmtR (.date 0x420008 0)))
+        (enc (Item.date 0x420008 59)) = true ∧
+      (enc (Item.date 0x420008 59) == enc (Item.date 0x420008 0)) = false := by
   decide +kernel
 
 end Kmip.C04
